@@ -51,6 +51,10 @@ def cases(seed, tier):
         "callbacks": {f"c{i}": {} for i in range(ncb)},
         "script": [],
     }
+    if rng.random() < 0.25:
+        # the subscribers are bound methods of recorder objects that compare equal to each other (value equality)
+        for spec_ in case["callbacks"].values():
+            spec_["bound_method"] = True
     subs = []
     for i in range(ncb):
         kind = rng.choice(KINDS)
